@@ -264,7 +264,8 @@ pub fn generate(d: &mut Draw) -> Case {
                         let t1 = g.target(2, dom, false);
                         let d2 = if cross { g.other_named(dom) } else { dom };
                         let t2 = g.target(2, d2, false);
-                        let rhs = g.rhs(4, dom, None);
+                        // the right-hand side needs a signal, else nothing crosses
+                        let rhs = if cross { Ex::S(g.dsg.sigs.iter().position(|s| s.class == Class::In && s.dom == dom && s.w == 4).unwrap(), None) } else { g.rhs(4, dom, None) };
                         if cross {
                             g.classes.insert("cross:concat-lhs".into());
                         }
@@ -469,8 +470,13 @@ pub fn generate(d: &mut Draw) -> Case {
         for t in g.dsg.item_targets(it) {
             match g.dsg.sigs[t].class {
                 Class::Var | Class::Out => {
-                    if ok {
+                    // a dynamically indexed destination left to inference is a
+                    // listed finding: kept at a low rate
+                    let dyn_lhs = matches!(&it.kind, IK::Assign { lhs: Lhs::One(_, LSel::Dyn(_)), .. });
+                    if ok && (!dyn_lhs || g.d.chance(1, 5)) {
                         infer_sigs.insert(t);
+                    } else if ok {
+                        g.classes.insert("excluded:inference-of-dynamically-indexed-destination".into());
                     }
                 }
                 Class::Member(k) => {
@@ -544,7 +550,7 @@ struct Verdict {
 }
 
 fn analyse(text: &str) -> Option<Verdict> {
-    let diags = pipe::analyze(text)?;
+    let diags = pipe::analyze_fresh(text)?;
     let mut v = Verdict {
         lines: vec![],
         other_error: None,
@@ -588,7 +594,19 @@ pub fn decide(d: &mut Draw) -> Outcome {
             .zip(&open_crossing)
             .filter(|(_, o)| **o)
             .all(|(it, _)| dsg.inst_first_conn_constant(it));
-        let sig = if all_const_first { "crossing-missed:instance-first-connection-constant" } else { "crossing-missed" };
+        let all_elsif = dsg
+            .items
+            .iter()
+            .zip(&open_crossing)
+            .filter(|(_, o)| **o)
+            .all(|(it, _)| dsg.ff_reset_elsif_cond_only(it));
+        let sig = if all_const_first {
+            "crossing-missed:instance-first-connection-constant"
+        } else if all_elsif {
+            "crossing-missed:if_reset-else-if-condition"
+        } else {
+            "crossing-missed"
+        };
         let which: Vec<usize> = (0..dsg.items.len()).filter(|i| open_crossing[*i]).collect();
         return fail(
             sig,
@@ -606,8 +624,14 @@ pub fn decide(d: &mut Draw) -> Outcome {
     // every report must sit on an open crossing item, every open crossing item must be reported
     let item_of = |line: usize| ranges.iter().position(|(a, b)| *a <= line && line <= *b);
     let mut reported_items: BTreeSet<usize> = BTreeSet::new();
+    let mut unattributed = 0;
     for ls in &vi.lines {
         let items: BTreeSet<usize> = ls.iter().filter_map(|l| item_of(*l)).collect();
+        if items.is_empty() {
+            // both labels on declarations (always_ff clock vs reset ports)
+            unattributed += 1;
+            continue;
+        }
         if !items.iter().any(|i| open_crossing[*i]) {
             return fail(
                 "false-crossing:located-on-clean-item",
@@ -619,8 +643,15 @@ pub fn decide(d: &mut Draw) -> Outcome {
     }
     for i in 0..dsg.items.len() {
         if open_crossing[i] && !reported_items.contains(&i) {
+            let ff_with_reset = matches!(dsg.items[i].kind, IK::Ff { rst: Some(_), .. });
+            if unattributed > 0 && ff_with_reset {
+                classes.push("located:clock-vs-reset-on-declarations".into());
+                continue;
+            }
             let sig = if dsg.inst_first_conn_constant(&dsg.items[i]) {
                 "crossing-missed:instance-first-connection-constant"
+            } else if dsg.ff_reset_elsif_cond_only(&dsg.items[i]) {
+                "crossing-missed:if_reset-else-if-condition"
             } else {
                 "crossing-missed:one-of-several"
             };
@@ -687,7 +718,12 @@ pub fn decide(d: &mut Draw) -> Outcome {
                 }
                 let got_iv = !v.lines.is_empty();
                 if got_iv != got_error {
-                    let sig = if c.use_before_def && got_iv && !got_error {
+                    let dyn_lhs_inferred = dsg.items.iter().any(|it| {
+                        matches!(&it.kind, IK::Assign { lhs: Lhs::One(t, LSel::Dyn(_)), .. } if c.infer_sigs.contains(t))
+                    });
+                    let sig = if dyn_lhs_inferred && got_iv && !got_error {
+                        "inferred-differs:lhs-index-checked-before-inference"
+                    } else if c.use_before_def && got_iv && !got_error {
                         "inferred-differs:read-before-inferring-assignment"
                     } else {
                         "inferred-differs"
@@ -721,8 +757,8 @@ pub fn decide(d: &mut Draw) -> Outcome {
 }
 
 pub fn run(ctx: &Ctx) {
-    let n = ctx.scale(2500, 60_000);
-    ctx.run("domains", CaseCfg::cases(n).choices(1200), decide);
+    let n = ctx.scale(1500, 60_000);
+    ctx.run("domains", crate::c15::shrink_cfg(CaseCfg::cases(n).choices(1200)), |d: &mut Draw| crate::c15::expose(decide(d)));
     ctx.assume("a crossing = one declaration whose connected signals (lhs, rhs operands, select indices, guarding conditions, always_ff clock/reset; per child-domain port group for an instance) lie in ≥ 2 domains; constants have no domain; '_ is a domain of its own");
     ctx.assume("inference replaces an annotation only for a variable / output / interface instance assigned by exactly one non-crossing item (first right-hand side has a signal, or always_ff clock)");
     ctx.finish(
